@@ -30,6 +30,22 @@ Lemma threshold_nearest_lemma : forall th x y : Z, (0 <= th)%Z -> in_range th y 
   (Z.abs (src_threshold x th - x) <= Z.abs (y - x))%Z.
 Proof. intros th x y Hth Hy. unfold in_range, src_threshold in *. lia. Qed.
 
+Lemma threshold_clips_lemma :
+  forall th x : Z, (0 <= th)%Z ->
+  in_range th (src_threshold x th) /\
+  (src_threshold x th = x <-> in_range th x) /\
+  ((th < x)%Z -> src_threshold x th = th) /\
+  ((x < - th)%Z -> src_threshold x th = (- th)%Z) /\
+  (forall y, in_range th y -> (Z.abs (src_threshold x th - x) <= Z.abs (y - x))%Z) /\
+  src_threshold (- x) th = (- src_threshold x th)%Z /\
+  (forall y, (x <= y)%Z -> (src_threshold x th <= src_threshold y th)%Z).
+Proof.
+  intros th x Hth. destruct (threshold_spec_lemma th x Hth) as [H1 [_ [H3 H4]]].
+  split; [exact H1|]. split; [exact (threshold_fixed_iff th x Hth)|]. split; [exact H3|]. split; [exact H4|].
+  split; [intros y Hy; exact (threshold_nearest_lemma th x y Hth Hy)|].
+  split; [exact (threshold_odd_lemma th x Hth)|intros y Hy; exact (threshold_monotone_lemma th x y Hy)].
+Qed.
+
 (* ---------------------------------------------------------------- arrays of any length *)
 Lemma clip_vec_length : forall th v, length (clip_vec th v) = length v.
 Proof. intros th v. unfold clip_vec. apply map_length. Qed.
